@@ -78,13 +78,18 @@ static void spki_table_notify_clients(struct spki_table *spki_table, const struc
 		spki_table->update_fp(spki_table, *record, added);
 }
 
-void spki_table_init(struct spki_table *spki_table, spki_update_fp update_fp)
+int spki_table_init(struct spki_table *spki_table, spki_update_fp update_fp)
 {
 	tommy_hashlin_init(&spki_table->hashtable);
 	tommy_list_init(&spki_table->list);
 	pthread_rwlock_init(&spki_table->lock, NULL);
 	spki_table->cmp_fp = key_entry_cmp;
 	spki_table->update_fp = update_fp;
+
+	/* tommy_hashlin_init cannot report that its allocation failed */
+	if (!spki_table->hashtable.bucket[0])
+		return SPKI_ERROR;
+	return SPKI_SUCCESS;
 }
 
 void spki_table_free(struct spki_table *spki_table)
